@@ -1,8 +1,49 @@
-import DarkluaModel.Util.Sexp
-/-! Line-protocol handlers for property C17 (stub: nothing modelled yet). -/
+import DarkluaModel.Shared.AstSexp
+import DarkluaModel.C17.Model
+/-!
+Line-protocol handlers for property C17.
+
+* `c17.rule <rule-name-hex> <props> <block>` → transformed block | `unmodelled` | `unknown-rule` | `bad-request`
+  props: `(preserve true|false)` for remove_assertions / remove_debug_profiling,
+         `(inject <name-hex> <expr>)` for inject_global_value
+* `c17.hyp <rule-name-hex> <props> <block>` → `(flag*)`: the defect regions the program touches (empty = inside H₁₇)
+* `c17.rules` → the modelled rule names
+-/
 namespace DarkluaModel.C17
 
-def handle (op : String) (_args : List String) : String :=
-  "unknown-op " ++ op
+def ruleOf? (name : String) (props : Sexp) : Option (Option Rule) :=
+  match name, props with
+  | "remove_assertions", .list [.atom "preserve", p] => p.bool?.map fun b => some (.removeAssertions b)
+  | "remove_debug_profiling", .list [.atom "preserve", p] => p.bool?.map fun b => some (.removeDebugProfiling b)
+  | "inject_global_value", .list [.atom "inject", n, v] =>
+    match nameOfSexp? n, Expr.ofSexp? v with
+    | some n, some v => some (some (.injectGlobalValue n v))
+    | _, _ => none
+  | "remove_assertions", _ | "remove_debug_profiling", _ | "inject_global_value", _ => none
+  | _, _ => some none
+
+def handle (op : String) (args : List String) : String :=
+  match op, Sexp.parseArgs args with
+  | "rule", some [name, props, block] =>
+    match nameOfSexp? name, Block.ofSexp? block with
+    | some n, some b =>
+      match ruleOf? n props with
+      | some (some r) =>
+        match applyRule r b with
+        | some b' => b'.toSexp.toString
+        | none => "unmodelled"
+      | some none => "unknown-rule"
+      | none => "bad-request"
+    | _, _ => "bad-request"
+  | "hyp", some [name, props, block] =>
+    match nameOfSexp? name, Block.ofSexp? block with
+    | some n, some b =>
+      match ruleOf? n props with
+      | some (some r) => (Sexp.list ((defects r b).map Sexp.atom)).toString
+      | some none => "unknown-rule"
+      | none => "bad-request"
+    | _, _ => "bad-request"
+  | "rules", _ => "remove_assertions remove_debug_profiling inject_global_value"
+  | _, _ => "unknown-op " ++ op
 
 end DarkluaModel.C17
